@@ -19,12 +19,15 @@
      t begins (C03); the step takes the one with the latest due time, the last-arrived among equals - so in two
      interleavings in which the source produces the same outputs in its own order and the destination has begun the same
      earlier steps, the step is given the same event value on that slot, or reads its registers in both;
+   - C04_persistent_pushed_value_same_in_every_interleaving (Sched/PushMem.v): for a slot registered in the persistent
+     memory (no pulled connection, no set_data call writes it) the value is the same outright - it is the newest entry of
+     the source's stream due by the step time, else the initial value (C03);
    Missing (C04_partial): closing the induction "same inputs -> same replies -> same outputs" for simulators whose replies
    depend on their inputs (and with it the equality of the registers when no event is due); debug mode and remote transport
    are not modelled and are compared by differential execution only. *)
 From Coq Require Import ZArith List Bool Arith.
 Import ListNotations.
-From MV Require Import Time.Spec Time.Ord Static.Build Sched.Timing Sched.Inv Sched.Main Sched.Quiet Sched.Plane Sched.DataP Sched.Mono Sched.Determ Sched.PruneRun Sched.PullRun Sched.EventRun Sched.SetData Sched.Persist Sched.PushRun.
+From MV Require Import Time.Spec Time.Ord Static.Build Sched.Timing Sched.Inv Sched.Main Sched.Quiet Sched.Plane Sched.DataP Sched.Mono Sched.Determ Sched.PruneRun Sched.PullRun Sched.EventRun Sched.SetData Sched.Persist Sched.PushRun Sched.PushMem.
 Open Scope Z_scope.
 
 Theorem C04_partial_guards_monotone : forall st s s' i t,
@@ -195,3 +198,21 @@ Proof.
   split; [eexists; vm_compute; reflexivity|]. split; [eexists; vm_compute; reflexivity|].
   split; [reflexivity|]. split; vm_compute; auto.
 Qed.
+
+(* for a slot registered in the persistent memory the two runs give the step the same value outright: it is the newest
+   entry of the source's stream due by the step time, else the initial value (C03_persistent_pushed_input_is_newest_due_output) *)
+Theorem C04_persistent_pushed_value_same_in_every_interleaving : forall st dt, static_ok st -> forall j a k,
+  push_strict st dt -> not_pulled dt j a k -> forall v0, iget a k (init_persist dt j) = Some v0 -> forall t,
+  forall preA mA postA spA dspA s1A ds1A inpA sfA dsfA, in_range st (preA ++ DBegin j t mA :: postA) -> no_setdata st j a k preA ->
+  dfinal st dt (init_state st) (init_dstate dt) preA = Some (spA, dspA) ->
+  dapply_gen false st dt (spA, dspA) (DBegin j t mA) = DOk s1A ds1A (Some inpA) ->
+  dfinal st dt (init_state st) (init_dstate dt) (preA ++ DBegin j t mA :: postA) = Some (sfA, dsfA) ->
+  forall preB mB postB spB dspB s1B ds1B inpB sfB dsfB, in_range st (preB ++ DBegin j t mB :: postB) -> no_setdata st j a k preB ->
+  dfinal st dt (init_state st) (init_dstate dt) preB = Some (spB, dspB) ->
+  dapply_gen false st dt (spB, dspB) (DBegin j t mB) = DOk s1B ds1B (Some inpB) ->
+  dfinal st dt (init_state st) (init_dstate dt) (preB ++ DBegin j t mB :: postB) = Some (sfB, dsfB) ->
+  produced k (preA ++ DBegin j t mA :: postA) = produced k (preB ++ DBegin j t mB :: postB) ->
+  (forall t', begins_of j preA t' <-> begins_of j preB t') ->
+  iget a k inpA = iget a k inpB.
+Proof. exact pushed_persistent_same_in_two_runs. Qed.
+Print Assumptions C04_persistent_pushed_value_same_in_every_interleaving.
